@@ -524,7 +524,7 @@ PROPS["C11"] = {
              "existing name), hard-link a file in, create an empty file, rename away to outside, rename to another Spec name or to a "
              "non-Spec name inside the directory, remove, mkdir of a missing directory, remove a directory with its content (recreated by a "
              "later mkdir), rename a whole directory away from its configured path, rename a complete prepared directory into a missing "
-             "configured path, rename one configured directory to the path of another, missing one, a plain query; contents are valid Specs (2 kinds x 2 device names, unique marker), unparsable or empty; after every action a "
+             "configured path, rename one configured directory to the path of another, missing one, a plain query; file names x.json, y.yaml, z.json and the hidden .h.yaml; contents are valid Specs (2 kinds x 2 device names, unique marker), unparsable or empty; after every action a "
              "pacing draw: nothing / yield / 1 ms / 20 ms / one query. Oracle (differential, as the statement defines it): after the last "
              "action the view through queries (devices with path, priority and definition; files in error) is polled until it equals the "
              "view of a cache freshly built from the final directory contents; only 'still different 10 s after the last change' is a "
@@ -572,7 +572,7 @@ PROPS["C10"] = {
     "level": "fault_enumeration",
     "rule": ("For each generated (new Spec, encoding json/yaml, file name - plain, or with the text of a Spec extension or of the temporary suffix "
              "before the real extension, as names generated for dotted vendor domains have -, initial state in {no directory, empty directory, previous file with other valid "
-             "content, previous file plus bystander files}): syscalls unit - the helper `vhelper write` (main goroutine locked to the main "
+             "content, previous file plus bystander files, previous file is a symbolic link to a file kept outside the directory}): syscalls unit - the helper `vhelper write` (main goroutine locked to the main "
              "thread) runs under strace; a calibration run on exactly that initial state lists every system call of the writer that touches "
              "the Spec directory (by path or through a descriptor opened there: newfstatat, mkdirat, openat, write, close, openat dir, "
              "renameat2, close); then for every such call k one run in which the writer is killed (SIGKILL) on entry to call k and one run "
